@@ -205,6 +205,11 @@ type Property struct {
 	// Replicas is the number of independent processes groups that each run the
 	// whole case list (digests are compared across replicas). 0 means 1.
 	Replicas func(tier string) int
+	// HangCPUSeconds > 0 makes "a case used more than this many CPU-seconds" a
+	// suspected non-termination that is re-run alone under a 60 CPU-second budget
+	// (C05). When 0, a very generous guard (900 CPU-s) only protects the harness
+	// and its firing is inconclusive, never a violation.
+	HangCPUSeconds float64
 	// ReplicaOrders makes replica r > 0 run its cases in a different order than
 	// replica 0 (reversed for odd r), so that anything that survives a call shows
 	// up as a cross-replica digest difference.
